@@ -24,6 +24,11 @@ pub struct LongHaul {
     /// percentage of Reliable packets (the rest is Unreliable), channels used
     pub reliable_pct: u8,
     pub channels: u8,
+    /// variant: a network duplicate of an ACK frame of the warm-up phase reaches the sender when the packet ids have
+    /// come round once and the packet window base it names is `delta` (1..1000) ahead of the sender's window base
+    /// again - while the packets in between have just been lost in transit (ack frames carry no sequence number)
+    #[serde(default)]
+    pub stale_ack: bool,
 }
 
 #[derive(Clone, Debug, serde::Serialize, serde::Deserialize)]
@@ -33,8 +38,148 @@ pub enum Case {
     LongHaul { long_haul: LongHaul },
 }
 
+/// What the stale-ack history left behind (shared with C02).
+pub struct StaleAckRun {
+    pub sc: PairScenario,
+    pub trace: Trace,
+    pub classes: Vec<&'static str>,
+    /// the history ran to the end (warm-up acknowledged, ids came round, burst lost, old ack delivered)
+    pub complete: bool,
+    pub end_send_buffer: usize,
+    pub end_pending: bool,
+    pub end_window: (u32, u32),
+}
+
+fn run_stale_ack(c: &LongHaul) -> CaseResult {
+    let r = stale_ack_history(c);
+    for s in 0..2 {
+        if let Err(v) = match_direction(&r.sc, &r.trace, s) {
+            return CaseResult { violation: Some(v), nontrivial: true, classes: r.classes };
+        }
+    }
+    CaseResult::ok(r.complete, r.classes)
+}
+
+pub fn stale_ack_history(c: &LongHaul) -> StaleAckRun {
+    use uflow::verif::Serialize as _;
+    let mut classes: Vec<&'static str> = vec!["long_haul", "long_haul_stale_ack"];
+    let dir = DirCfg { pkt_win_log2: 12, frm_win_log2: 12, pkt_base: c.pkt_base & PKT_MASK, frm_base: c.frm_base, alloc_limit: 4_000_000, bw_limit: 400_000_000 };
+    let sc = PairScenario {
+        dirs: [dir.clone(), dir],
+        keepalive_ms: None,
+        seed: c.seed,
+        zero_ch: 0,
+        zero_mode: 1,
+        links: [LinkCfg { latency_us: c.latency_us.min(20_000), fates: vec![] }, LinkCfg { latency_us: c.latency_us.min(20_000), fates: vec![] }],
+        ticks: vec![],
+        tail: None,
+        premature_acks: Vec::new(),
+    };
+    let mut sim = SimPair::new(&sc);
+    sim.record_stats = false;
+    let channels = c.channels.clamp(1, 8);
+    let mut submitted: u32 = 0;
+    let force_reliable = std::cell::Cell::new(false);
+    let tick = |sim: &mut SimPair, dt_us: u64, count: u32, submitted: &mut u32| {
+        let mut sends = Vec::with_capacity(count as usize);
+        for k in 0..count {
+            let i = *submitted;
+            let mode = if (force_reliable.get() && k < 3) || (i.wrapping_mul(2654435761) >> 8) % 100 < c.reliable_pct as u32 { 3 } else { 1 };
+            sends.push(SendSpec { ch: (i % channels as u32) as u8, mode, size: 8 });
+            *submitted += 1;
+        }
+        let t = Tick { dt_us, acts: [EpAct { step: true, sends, flushes: 1 }, EpAct { step: true, sends: vec![], flushes: 1 }] };
+        sim.run_tick(&t);
+    };
+    let drain = |sim: &mut SimPair, submitted: &mut u32, quiet: u32| {
+        let mut idle = 0;
+        let mut last = (sim.trace.delivs[1].len(), sim.hc[0].send_buffer_size());
+        let mut guard = 0;
+        while idle < quiet && guard < 100_000 {
+            guard += 1;
+            tick(sim, 5_000, 0, submitted);
+            let now = (sim.trace.delivs[1].len(), sim.hc[0].send_buffer_size());
+            if now != last {
+                last = now;
+                idle = 0;
+            } else {
+                idle += 1;
+            }
+        }
+    };
+    // A: warm-up, then everything is delivered and acknowledged; the last ack frame names the id after the warm-up
+    for _ in 0..60 {
+        tick(&mut sim, 5_000, 20, &mut submitted);
+    }
+    drain(&mut sim, &mut submitted, 200);
+    let ack_copy: Option<(Box<[u8]>, u32)> = sim.trace.wire[1].iter().rev().find_map(|w| match uflow::verif::Frame::read(&w.bytes) {
+        Some(uflow::verif::Frame::AckFrame(a)) => Some((w.bytes.clone(), a.packet_window_base_id)),
+        _ => None,
+    });
+    let incomplete = |sim: SimPair, sc: &PairScenario, classes: Vec<&'static str>| -> StaleAckRun {
+        let (b, p, w) = (sim.hc[0].send_buffer_size(), sim.hc[0].is_send_pending(), sim.hc[0].verif_packet_window());
+        StaleAckRun { sc: sc.clone(), trace: sim.finish(), classes, complete: false, end_send_buffer: b, end_pending: p, end_window: w }
+    };
+    let Some((ack_bytes, x)) = ack_copy else { return incomplete(sim, &sc, classes) };
+    if x != (c.pkt_base.wrapping_add(submitted)) & PKT_MASK || sim.hc[0].send_buffer_size() != 0 {
+        // (the warm-up did not end fully acknowledged: nothing to learn from this case)
+        classes.push("long_haul_stale_ack_warmup_incomplete");
+        return incomplete(sim, &sc, classes);
+    }
+    // C: carry on until the ids have come round and the next id lies m before the id the old ack names
+    let m = 1 + (c.delta as u32 % 1000);
+    let target = (1u32 << 20) + submitted - m;
+    let mut guard = 0;
+    while submitted < target && guard < 200_000 {
+        guard += 1;
+        let room = sim.hc[0].send_buffer_size() < 300_000;
+        let n = if room { (target - submitted).min(1000) } else { 0 };
+        tick(&mut sim, 2_000, n, &mut submitted);
+    }
+    drain(&mut sim, &mut submitted, 200);
+    if sim.hc[0].send_buffer_size() != 0 {
+        classes.push("long_haul_stale_ack_not_drained");
+        return incomplete(sim, &sc, classes);
+    }
+    classes.push("long_haul_packet_ids_came_round");
+    // D: a burst whose data frames are all lost in transit (the first packets of it are Reliable) ...
+    sim.blackout[0] = (sim.now_us + 150_000, 1);
+    force_reliable.set(true);
+    tick(&mut sim, 5_000, m + 40, &mut submitted);
+    force_reliable.set(false);
+    for _ in 0..10 {
+        tick(&mut sim, 5_000, 0, &mut submitted);
+    }
+    // E: ... and the year-old duplicate of the ack frame arrives: its packet window base lies inside the sender's window
+    let base_before = sim.hc[0].verif_packet_window().0;
+    sim.handle_bytes(0, &ack_bytes);
+    if sim.hc[0].verif_packet_window().0 != base_before {
+        classes.push("long_haul_stale_ack_moved_the_sender_window");
+    }
+    if std::env::var_os("VERIF_DEBUG").is_some() {
+        eprintln!("stale ack names {x}; sender window before {:?} after {:?}; delivered so far {} of {submitted}", base_before, sim.hc[0].verif_packet_window(), sim.trace.delivs[1].len());
+    }
+    while sim.now_us < sim.blackout[0].0 {
+        tick(&mut sim, 5_000, 0, &mut submitted);
+    }
+    // F: traffic goes on, well past one window
+    for _ in 0..60 {
+        tick(&mut sim, 5_000, 150, &mut submitted);
+    }
+    drain(&mut sim, &mut submitted, 400);
+    if std::env::var_os("VERIF_DEBUG").is_some() {
+        eprintln!("end: sender window {:?} sbs {} pending {} stats {:?}; receiver stats {:?}", sim.hc[0].verif_packet_window(), sim.hc[0].send_buffer_size(), sim.hc[0].is_send_pending(), sim.hc[0].verif_stats(), sim.hc[1].verif_stats());
+    }
+    let (end_send_buffer, end_pending, end_window) = (sim.hc[0].send_buffer_size(), sim.hc[0].is_send_pending(), sim.hc[0].verif_packet_window());
+    let trace = sim.finish();
+    StaleAckRun { sc, trace, classes, complete: true, end_send_buffer, end_pending, end_window }
+}
+
 fn run_long_haul(c: &LongHaul) -> CaseResult {
     use uflow::verif::Serialize as _;
+    if c.stale_ack {
+        return run_stale_ack(c);
+    }
     let mut classes: Vec<&'static str> = vec!["long_haul"];
     let dir = DirCfg { pkt_win_log2: 12, frm_win_log2: 12, pkt_base: c.pkt_base & PKT_MASK, frm_base: c.frm_base, alloc_limit: 4_000_000, bw_limit: 400_000_000 };
     let sc = PairScenario {
@@ -154,7 +299,7 @@ fn run_long_haul(c: &LongHaul) -> CaseResult {
 }
 
 pub fn wrap_classes(sc: &PairScenario, trace: &Trace, classes: &mut Vec<&'static str>) {
-    if sc.ticks.first().map_or(false, |t| t.dt_us >= 60_000_000) {
+    if sc.ticks.iter().any(|t| t.dt_us >= 60_000_000) {
         classes.push(if trace.end_us >= (1u64 << 32) * 1000 { "old_connection_clock_crossed_2_pow_32_ms" } else { "old_connection_clock_near_a_power_of_two" });
     }
     for d in 0..2 {
@@ -191,7 +336,7 @@ impl Check for C01 {
 
     fn strategy(&self, tier: Tier) -> BoxedStrategy<Case> {
         let long_haul = (any::<u64>(), prop_oneof![Just(0u32), 0u32..=PKT_MASK], prop_oneof![Just(0u32), (0u32..100_000).prop_map(|d| u32::MAX - d), any::<u32>()], prop_oneof![Just(0u32), 0u32..20_000], 2_200u16..5_000, 0u16..3000, prop_oneof![Just(0u8), 0u8..50], 1u8..6)
-            .prop_map(|(seed, pkt_base, frm_base, latency_us, hold_ms, delta, reliable_pct, channels)| Case::LongHaul { long_haul: LongHaul { seed, pkt_base, frm_base, latency_us, hold_ms, delta, reliable_pct, channels } });
+            .prop_map(|(seed, pkt_base, frm_base, latency_us, hold_ms, delta, reliable_pct, channels)| Case::LongHaul { long_haul: LongHaul { seed, pkt_base, frm_base, latency_us, hold_ms, delta, reliable_pct, channels, stale_ack: seed % 3 == 0 } });
         // (a long-haul case moves more than a million packets: seconds each, hence few)
         prop_oneof![tier.pick(2000, 3000) => pair_strategy(tier).prop_map(Case::Pair), 1 => long_haul].boxed()
     }
